@@ -195,3 +195,8 @@ func vKnown(id string, c bool) {}
 
 // vDump prints a term (development aid); native: no-op.
 func vDump(name string, x uint64) {}
+
+// vConfineBegin / vConfineEnd bracket the operation whose stores are checked in
+// confinement mode (C18): z is the receiver, ops the shared operands. Native: no-ops.
+func vConfineBegin(z *Decimal, ops []*Decimal) {}
+func vConfineEnd(z *Decimal)                   {}
